@@ -371,6 +371,21 @@ func (w *World) Close() {
 		}
 	}
 	w.Atomix.Close()
+	// goroutines of the real code that outlive the case (parked incarnations, watch pumps) keep the world
+	// reachable: drop the bulk so that a child process running many cases stays small
+	w.mu.Lock()
+	w.events = nil
+	w.mu.Unlock()
+	for _, d := range w.Devices {
+		d.mu.Lock()
+		d.Log = nil
+		d.mu.Unlock()
+	}
+	if w.Plugin != nil {
+		w.Plugin.mu.Lock()
+		w.Plugin.Docs = nil
+		w.Plugin.mu.Unlock()
+	}
 }
 
 func cloneCfg(c *configapi.Configuration) *configapi.Configuration {
